@@ -274,41 +274,9 @@ func (o *ObsC03) AfterOp(x *Exec, i int, op Op, res *OpResult) *vcore.Failure {
 		}
 	}
 	if op.K == "quiesce" {
-		// no leak: no IP stays assigned to a pod that no longer exists unless its policy reserves it
-		snap := x.W.Snap()
-		for ip, f := range snap.Alloc {
-			if f.Reserved || f.Key == "" {
-				continue
-			}
-			ko := putil.ParseKey(f.Key)
-			if ko.PodName == "" {
-				continue // held in reserve under an app / pool prefix
-			}
-			if !x.truthGone(ko.PodName) {
-				continue
-			}
-			wl := x.wlByKey(ko)
-			holdings := 0
-			if wl != nil && wl.Kind == "dp" {
-				pre := poolPrefixOf(wl)
-				for _, g := range snap.Alloc {
-					if strings.HasPrefix(g.Key, pre) {
-						holdings++
-					}
-				}
-			}
-			keep, known := x.keepDecision(f.Policy, ko, wl, holdings)
-			if !known {
-				continue
-			}
-			if wl.Kind == "dp" {
-				// a kept deployment IP is re-keyed to the prefix; a pod key of a gone pod is a leak either way
-				keep = false
-			}
-			if !keep {
-				return vcore.Failf("c03:leak", "after quiescence IP %s is still assigned to %q (policy %d) although its pod is gone and the "+
-					"policy does not reserve it (workload view: %s)", ip, f.Key, f.Policy, x.viewStr(wl))
-			}
+		if f := x.LeakCheck("c03:leak"); f != nil {
+			f.Msg = "after quiescence: " + f.Msg
+			return f
 		}
 	}
 	return nil
@@ -373,6 +341,11 @@ func (o *ObsC10) check(x *Exec, quiescent bool) *vcore.Failure {
 	_ = alloc
 	if quiescent {
 		for ip := range unalloc {
+			if n := o.state[ip]; n != "" && x.MixedKeys[x.LastKey[ip]] {
+				return vcore.Failf("c10:freed_while_assigned:stale_sync_mixed_uid", "IP %s is free in IPAM but the provider still has it "+
+					"assigned to node %s; its key %q also held an IP re-allocated for an older incarnation by the pod-IP sync of a stale "+
+					"update event, and resync cleared/released every IP of the key after unassigning only one", ip, n, x.LastKey[ip])
+			}
 			if n := o.state[ip]; n != "" {
 				return vcore.Failf("c10:freed_while_assigned", "IP %s is free in IPAM but the provider still has it assigned to node %s", ip, n)
 			}
